@@ -327,7 +327,7 @@ func runDispatch(c *rig.Ctx, cs DCase, record bool, st *stats) bool {
 		return fail("diff", "c03.model-error", "model error "+modelErr.Error(), nil)
 	}
 	var plan modelReply
-	if err := c.Model("C03.run", map[string]interface{}{"ops": ops}, &plan); err != nil {
+	if err := c.Model("C03.run", map[string]interface{}{"ops": ops, "policy_scopes": lib.PolicyScopes()}, &plan); err != nil {
 		return fail("diff", "c03.model-error", "model error "+err.Error(), nil)
 	}
 	if !lib.WaitNoHealthGoroutines(20 * time.Second) {
@@ -613,7 +613,7 @@ func runDispatch(c *rig.Ctx, cs DCase, record bool, st *stats) bool {
 		}
 	}
 	var m modelReply
-	if err := c.Model("C03.run", map[string]interface{}{"ops": ops, "impl": impl}, &m); err != nil {
+	if err := c.Model("C03.run", map[string]interface{}{"ops": ops, "impl": impl, "policy_scopes": lib.PolicyScopes()}, &m); err != nil {
 		return fail("diff", "c03.model-error", "model error "+err.Error(), impl)
 	}
 	if m.ImplBad != nil {
